@@ -211,7 +211,7 @@ def print_assumptions(prop, extra=()):
     return res, so
 
 
-EXTRA_PROPS = {"C10": [("C10live", None)], "C08": [("EndToEnd", None)], "C03": [("ValidPos", None)], "C07": [("C07print", None)], "C12": [("C12off", None), ("C12offchess", None), ("C12sound", None), ("C12soundchess", None), ("C12strict", None), ("C12seenRefuted", None), ("C12seen", None), ("C12rules", None)], "C02": [("C02closed", "C02"), ("C02search", None)], "C01": [("RulesPerft", None)], "C04": [("C02closed", "C04")], "C09": [("C09chess", None)], "C11": [("C11chess", None)], "C13": [("ChessInstances", "C13"), ("C13prefix", None)],
+EXTRA_PROPS = {"C10": [("C10live", None)], "C08": [("EndToEnd", None)], "C03": [("ValidPos", None)], "C07": [("C07print", None)], "C12": [("C12off", None), ("C12offchess", None), ("C12sound", None), ("C12soundchess", None), ("C12strict", None), ("C12seenRefuted", None), ("C12seen", None), ("C12rules", None), ("EndToEndMate", None)], "C02": [("C02closed", "C02"), ("C02search", None)], "C01": [("RulesPerft", None)], "C04": [("C02closed", "C04")], "C09": [("C09chess", None)], "C11": [("C11chess", None)], "C13": [("ChessInstances", "C13"), ("C13prefix", None)],
                "C14": [("ChessInstances", "C14"), ("C14syntax", None)], "C16": [("ChessInstances", "C16")]}
 
 
